@@ -5,7 +5,7 @@ open Retro Retro.Raster Retro.Drv Retro.Drv.RasterCommon
 open Retro.Spec.Raster (P2 planeAt)
 
 def kindWords (k : String) : Nat :=
-  if k == "u" then 0 else if k == "s" then 1 else if k == "v2" then 2 else 3
+  if k == "u" then 0 else if k == "s" then 1 else if k == "v2" then 2 else if k == "c4" then 4 else 3
 
 def chunk3 (stride : Nat) (ws : List Rat) : Option (List Rat × List Rat × List Rat) :=
   if ws.length == 3 * stride then some (ws.take stride, (ws.drop stride).take stride, ws.drop (2 * stride)) else none
